@@ -201,6 +201,25 @@ def check(fb, ctx):
     ep = fb.hir_of(E + "::Expression::print")
     arrow = [f for f in fmt_nodes(ep["body"]) if any(isinstance(p, str) and "->" in p for p in f["pieces"])]
     ctx.check(len(arrow) == 1 and "->" in tags, "TOKENS", "closures print as `$p -> body`, the form all/any parse", "TOKENS|closure", "no `->` in the closure printer or in the grammar", f"{ep['file']}:{ep['line']}")
+    # ---- SUBST: a printer that clones its item and substitutes the bound parameters prints the CLONE; the original parameter is not
+    # read again (a `{param}` that is bound would print as `{param}` and not parse back)
+    n_subst = 0
+    for key_, hd in fb.hir.items():
+        if hd.get("crate") != "biscuit_auth" or not re.search(r"token::builder::", hd["path"]) or not (hd["path"].endswith("::fmt") or "display_" in hd["path"].split("::")[-1]):
+            continue
+        for l_ in find_all(hd["body"], lambda z: z.get("k") == "let" and isinstance(z.get("pat"), dict) and z["pat"].get("k") == "bind" and z.get("init") is not None):
+            init = strip(l_["init"])
+            if not (isinstance(init, dict) and init.get("k") == "mcall" and init.get("name") == "clone" and is_local(strip(init["recv"]))):
+                continue
+            cid, pid = l_["pat"]["id"], strip(init["recv"])["res"]["id"]
+            if pid not in {q.get("id") for q in (hd.get("params") or []) if isinstance(q, dict)}:
+                continue
+            if not find_all(hd["body"], lambda z: z.get("k") == "mcall" and z.get("name") == "apply_parameters" and hirq.is_lid(strip(z["recv"]), {cid})):
+                continue
+            n_subst += 1
+            later = [z for z in find_all(hd["body"], lambda z: hirq.is_lid(z, {pid})) if not find_all(l_["init"], lambda y: y is z)]
+            ctx.check(not later, "SUBST", f"{hd['path'].split(' as ')[0].split('::')[-1].strip('<>')}: only the parameter-substituted clone is printed", f"SUBST|{hd['path']}", f"the unsubstituted original is read again at line(s) {sorted({z['ln'] for z in later})}: a bound `{{param}}` there prints as a parameter", f"{hd['file']}:{later[0]['ln'] if later else hd['line']}")
+    ctx.floor("printers that substitute parameters in a clone", n_subst, 1)
     # ---- SIBLING: the block accessors behind print_block_source
     from props import tablesym
     tablesym.block_accessor_rules(fb, ctx)
